@@ -22,7 +22,7 @@ fn check<'a>(ctx: &Ctx) -> EncCheck<'a> {
         core_max_chars: 2,
         core_max_chars_2022: ctx.tier.pick(2, 3),
         random_per_enc: ctx.n(5_000, 150_000),
-        profile: EProfile { max_chars: ctx.tier.pick(12, 64), small_caps_weight: 140, queries: false, mappable_only: false },
+        profile: EProfile { max_chars: ctx.tier.pick(12, 64), small_caps_weight: 140, queries: false, exact_queries: false, mappable_only: false },
         mappable_only_when_repl: false,
     }
 }
